@@ -264,4 +264,12 @@ def r_marker(ctx):
                   f"worker named 'A{writer}1' is reported as resource 'A'", LOC) if readers else None
 
 
-RULES = [r_extract, r_horizon_report, r_calendar, r_view_symmetry, r_marker]
+def r_requirement_interval(ctx):
+    """'the assignment interval is the one the task's requirement implies': the reporter copies the model values of the
+    stored busy pair (R-EXTRACT); that pair is tied to the task span, delay-in / early-out included, by
+    Task.add_required_resource - the C02 rule R-BUSY-BIND decides that binding, and it is part of this property too"""
+    from rules import resources
+    resources.r_busy_bind(ctx)
+
+
+RULES = [r_extract, r_horizon_report, r_calendar, r_view_symmetry, r_marker, r_requirement_interval]
